@@ -309,14 +309,18 @@ rows_harness!(c04_typecompat_complete_d3_r0, 0, 4, false);
 rows_harness!(c04_typecompat_complete_d3_r1, 4, 8, false);
 rows_harness!(c04_typecompat_complete_d3_r2, 8, 11, false);
 
-// depth <= 4 (19 x 19 nestings) in five row slices: thorough tier
-rows_harness!(c03_typecompat_sound_d4_r0, 0, 4, true, 19, 4, 21);
-rows_harness!(c03_typecompat_sound_d4_r1, 4, 8, true, 19, 4, 21);
-rows_harness!(c03_typecompat_sound_d4_r2, 8, 12, true, 19, 4, 21);
-rows_harness!(c03_typecompat_sound_d4_r3, 12, 16, true, 19, 4, 21);
-rows_harness!(c03_typecompat_sound_d4_r4, 16, 19, true, 19, 4, 21);
-rows_harness!(c04_typecompat_complete_d4_r0, 0, 4, false, 19, 4, 21);
-rows_harness!(c04_typecompat_complete_d4_r1, 4, 8, false, 19, 4, 21);
-rows_harness!(c04_typecompat_complete_d4_r2, 8, 12, false, 19, 4, 21);
-rows_harness!(c04_typecompat_complete_d4_r3, 12, 16, false, 19, 4, 21);
-rows_harness!(c04_typecompat_complete_d4_r4, 16, 19, false, 19, 4, 21);
+// depth <= 4 (19 x 19 nestings) in row slices (smaller slices for the deep rows): thorough tier
+macro_rules! d4 {
+    ($c03:ident, $c04:ident, $from:expr, $to:expr) => {
+        rows_harness!($c03, $from, $to, true, 19, 4, 21);
+        rows_harness!($c04, $from, $to, false, 19, 4, 21);
+    };
+}
+d4!(c03_typecompat_sound_d4_s0, c04_typecompat_complete_d4_s0, 0, 4);
+d4!(c03_typecompat_sound_d4_s1, c04_typecompat_complete_d4_s1, 4, 8);
+d4!(c03_typecompat_sound_d4_s2, c04_typecompat_complete_d4_s2, 8, 10);
+d4!(c03_typecompat_sound_d4_s3, c04_typecompat_complete_d4_s3, 10, 12);
+d4!(c03_typecompat_sound_d4_s4, c04_typecompat_complete_d4_s4, 12, 14);
+d4!(c03_typecompat_sound_d4_s5, c04_typecompat_complete_d4_s5, 14, 16);
+d4!(c03_typecompat_sound_d4_s6, c04_typecompat_complete_d4_s6, 16, 18);
+d4!(c03_typecompat_sound_d4_s7, c04_typecompat_complete_d4_s7, 18, 19);
